@@ -1143,6 +1143,30 @@ impl Interp {
                 let upper = self.w.traders[crate::world::ALIAS_ATTACKER].to_uppercase();
                 let real = self.w.vamms[v].to_string();
                 let attacker_pos_long = pre.pos[v][crate::world::ALIAS_ATTACKER].as_ref().map(|p| !p.size.is_negative()).unwrap_or(true);
+                if kind % 12 == 11 {
+                    // the aliased trader first trades its own position (almost) exactly flat with an order just below the position's
+                    // value - which can leave a zero-size record that still holds margin -, tops that record up, and only then
+                    // the other account names the aliasing address in a WithdrawMargin
+                    let vt = crate::world::ALIAS_VICTIM;
+                    if let Some(p) = &pre.pos[v][vt] {
+                        if !p.size.is_zero() {
+                            if let Some(pn) = self.output_amount(v, p.direction.clone(), p.size.value.u128()) {
+                                let long = !p.size.is_negative();
+                                let q = pn.saturating_sub(1 + (*amt as u128 % 3)).max(1);
+                                let attach = if self.w.cfg.native { self.expected_pull(pre, vt, v, !long, q, d) } else { 0 };
+                                let dep = d / 10 + jitter(*amt, d);
+                                self.w.follow.push_back(Act::Deposit { t: vt, v, amount: dep, attach: dep });
+                                self.w.follow.push_back(Act::EngineAdmin {
+                                    sender: self.w.traders[crate::world::ALIAS_ATTACKER].clone(),
+                                    msg: eng::ExecuteMsg::WithdrawMargin { vamm: alias, amount: u(dep / 2 + 1) },
+                                    attach: 0,
+                                });
+                                return Act::Open { t: vt, v, buy: !long, margin: q, lev: d, limit: 0, attach, directed: true };
+                            }
+                        }
+                    }
+                    return Act::Skip;
+                }
                 let (sender, msg) = match kind % 11 {
                     0 => (None, eng::ExecuteMsg::DepositMargin { vamm: alias, amount: a }),
                     1 => (None, eng::ExecuteMsg::WithdrawMargin { vamm: alias, amount: a }),
